@@ -154,6 +154,34 @@ fn main() {
             rep.add("lock_events.acquired", pool.shared.ev_acquired.load(AO2::Relaxed));
             rep.add("lock_events.released", pool.shared.ev_released.load(AO2::Relaxed));
         }
+        "stress" => {
+            watchdog::start(prop.clone());
+            let iters = args.num("iterations", 50);
+            let ops = args.num("ops", 300) as usize;
+            let s = seed.wrapping_mul(7919).wrapping_add(shard);
+            if shard % 2 == 0 {
+                stress::run::<flav::SyncDi>(&mut rep, iters, ops, s, &out);
+            } else {
+                stress::run::<flav::SyncUn>(&mut rep, iters, ops, s, &out);
+            }
+        }
+        "conc_free" => {
+            // real threads, real lock, no observer (this is what runs under Miri)
+            gdsl::verif_hook::uninstall();
+            let list = conc_check::free_scenarios();
+            let which = args.num("index", 0) as usize % list.len();
+            let sc = conc::Scenario::parse(list[which]).expect("harness: bad free scenario");
+            let reps = args.num("reps", 1);
+            for _ in 0..reps {
+                if shard % 2 == 0 {
+                    conc_check::run_free::<flav::SyncDi>(&sc, &mut rep);
+                } else {
+                    conc_check::run_free::<flav::SyncUn>(&sc, &mut rep);
+                }
+            }
+            rep.distinct(types::fnv_str(&format!("{}|{}", shard % 2, list[which])));
+            rep.distinct(types::fnv_str("free"));
+        }
         "replay" => {
             let path = args.str("file", "");
             let txt = std::fs::read_to_string(&path).expect("cannot read replay file");
